@@ -1046,7 +1046,7 @@ pub fn history(mode: &str, idx: u64, rng: &mut Rng, thorough: bool, timeout_ms: 
         // bulk loading: the same input through every loader
         "bulk" => {
             let (scalar, _, hint) = instance(rng, &["dt"], true, &["last", "h16"]);
-            let fam = Fam::choose(rng, &["grid", "grid", "line", "circle", "unif", "neardeg", "cluster", "magn", "scaled", "wide"]);
+            let fam = Fam::choose(rng, &["grid", "grid", "line", "circle", "unif", "unif", "unif", "unif", "neardeg", "cluster", "magn", "scaled", "wide"]);
             let cdt = rng.chance(500);
             let kind = if cdt { "cdt" } else { "dt" };
             let mut ctx = Ctx::new(&scalar, kind, &hint, timeout_ms);
